@@ -132,7 +132,17 @@ int main(int argc, char** argv)
     while (std::getline(in, line)) { Args a; std::istringstream ss(line); std::string t; while (std::getline(ss, t, ',')) if (!t.empty()) a.push_back((int64_t)strtoll(t.c_str(), 0, 10)); if (!a.empty()) { ctx.evaluate(*cl, a); ++ctx.extra["regression-seeds-replayed"]; } }
   }
   if (ctx.fail_last.set) { /* a saved case fails again: report it as is */ }
-  else if (!strcmp(cl->engine, "rc")) run_rc(ctx, *cl);
+  else if (!strcmp(cl->engine, "rc")) {
+    run_rc(ctx, *cl);
+    // histories: rapidcheck shrinks the words (length, operands); finish by deleting whole steps while the
+    // case still fails, so that the reported history contains only the steps that matter
+    if (ctx.fail_last.set && !strcmp(cl->id, "C17.hist")) {
+      Args a = ctx.fail_last.args; bool progress = true;
+      while (progress && a.size() > 3) { progress = false;
+        for (size_t i = 1; i + 1 < a.size(); i += 2) { Args t = a; t.erase(t.begin() + (long)i, t.begin() + (long)i + 2); Failure k1 = ctx.fail_first, k2 = ctx.fail_last; if (!ctx.evaluate(*cl, t)) { a = t; progress = true; break; } ctx.fail_first = k1; ctx.fail_last = k2; } }
+      Args s = shrink_ints(ctx, *cl, a); (void)s;
+    }
+  }
   else { SweepInfo si = cl->sweep(ctx, *cl); exhaustive = si.exhaustive; note = si.note;
          if (ctx.fail_last.set) { Args s = shrink_ints(ctx, *cl, ctx.fail_last.args); (void)s; } }
   double wall = std::chrono::duration<double>(std::chrono::steady_clock::now() - t0).count();
